@@ -9,6 +9,16 @@ Lemma pg1_I : incl_check (RP I) (ipath I) = true. Proof. refl. Qed.
 Lemma pg2_I : incl_check (ipath I) (RP I) = true. Proof. refl. Qed.
 Lemma pg3_I : incl_check (isegment I) (Star (Cls not_slash)) = true. Proof. refl. Qed.
 
+(* certificates used by C04Valid2 *)
+Lemma k_ns_U : incl_check (ipath_noscheme U) (ipath U) = true. Proof. refl. Qed.
+Lemma k_eps_U : incl_check Eps (ipath U) = true. Proof. refl. Qed.
+Lemma k_dots_U : incl_check (Alt (ch DOT) (Cat (ch DOT) (ch DOT))) (isegment U) = true. Proof. refl. Qed.
+Lemma k_noqh_U : incl_check (isegment U) (Star (Cls not_qh)) = true. Proof. refl. Qed.
+Lemma k_ns_I : incl_check (ipath_noscheme I) (ipath I) = true. Proof. refl. Qed.
+Lemma k_eps_I : incl_check Eps (ipath I) = true. Proof. refl. Qed.
+Lemma k_dots_I : incl_check (Alt (ch DOT) (Cat (ch DOT) (ch DOT))) (isegment I) = true. Proof. refl. Qed.
+Lemma k_noqh_I : incl_check (isegment I) (Star (Cls not_qh)) = true. Proof. refl. Qed.
+
 Theorem path_of_segs_U v : Forall (L (isegment U)) (segs v) -> L (ipath U) v.
 Proof. exact (path_of_segs U pg1_U pg2_U pg3_U v). Qed.
 Theorem segs_of_path_U v : L (ipath U) v -> Forall (L (isegment U)) (segs v).
